@@ -18,7 +18,8 @@ from props import c02 as G
 ID = 'C05'
 PROFILES = ['debug']
 THEOREMS = ['C05_framing', 'C05_framing_indirect', 'C05_sound', 'C05_sound_indirect', 'C05_len_errors',
-            'C05_errors_propagate', 'C05_declared_too_long', 'C05_cr_only_rejected', 'C05_endstream_required']
+            'C05_errors_propagate', 'C05_declared_too_long', 'C05_cr_only_rejected', 'C05_endstream_required',
+            'C05_total', 'C05_total_release', 'C05_total_internal']
 RULE = ('payload in {empty, random binary, each framing keyword, keyword at every offset, CR/LF at either end} x declared '
         'length in {=, -1, +1, +len("\\nendstream"), 0, negative, 2^63-1, 2^63, real, name, array, null, missing} x direct / '
         'referenced (defined integer, undefined, non-integer, negative, reference) x EOL after `stream` in {LF, CRLF, CR, none, '
